@@ -67,7 +67,7 @@ theorem finishRun_spec {c : Cfg} {st st' : StB} {s : Nat} {x : Exit} {pick : Nat
       (s < c.n ∧ c.isSched s = true ∧ st.a.pc s = .exiting ∧ st.a.ph s = .running) ∧
       st'.a.ph = setAt st.a.ph s (finPh r) ∧ st'.a.creq = setAt st.a.creq s false ∧ st'.a.deliv = st.a.deliv ∧
       st'.a.pc = setAt st.a.pc s .over ∧ st'.a.rx = st.a.rx ∧ st'.a.now = st.a.now ∧
-      st'.pcB = setAt st.pcB s .over ∧ st'.failT = setAt st.failT s (x == .timeout) ∧
+      st'.pcB = setAt st.pcB s .over ∧ st'.failT = st.failT ∧
       st'.failC = setAt st.failC s (x == .critical) ∧ st'.tbegin = st.tbegin := by
   unfold finishRun at h
   split at h
@@ -85,16 +85,32 @@ def ExitReason (c : Cfg) (st : StB) (e : EvB) (s : Nat) : Exit → Prop
   | .critical => e = .react s ∧ ∃ D, st.a.rx s = some D ∧ critIn c st.a D = true
   | .success => e = .react s ∧ ∃ D, st.a.rx s = some D ∧ critIn c st.a D = false ∧
       st.nbDone s + (D.filter fun d => !c.forever d).length = nbFinite c s
-  | .timeout => e = .timeoutFire s ∧ ∃ dl, st.deadline s = some dl ∧ dl ≤ st.a.now ∧ doneSet c st.a s = []
+  | .timeout => ∃ dl, st.deadline s = some dl ∧ dl ≤ st.a.now ∧
+      ((e = .timeoutFire s ∧ doneSet c st.a s = []) ∨
+       (e = .react s ∧ ∃ D, st.a.rx s = some D ∧ critIn c st.a D = false ∧
+          st.nbDone s + (D.filter fun d => !c.forever d).length ≠ nbFinite c s))
   | .cancelled => e = .cancelArrive s
+
+theorem expired_some {dl : Option Nat} {now : Nat} (h : expired dl now = true) : ∃ d, dl = some d ∧ d ≤ now := by
+  unfold expired at h
+  split at h
+  · rename_i d; exact ⟨d, rfl, by simpa using h⟩
+  · cases h
 
 theorem loop_exit (c : Cfg) (st st' : StB) (e : EvB) (s : Nat)
     (hB : InvB c st) (h : stepB c st e = some st') (hloop : st.pcB s = .loop) (hleft : st'.pcB s ≠ .loop) :
     ∃ x, st'.pcB s = .tidy x ∧ st'.a.ph = st.a.ph ∧
       st'.a.creq = (fun k => st.a.creq k || decide (k ∈ liveChildren c st.a s)) ∧
       st'.a.deliv = st.a.deliv ∧ st'.a.now = st.a.now ∧ st'.tbegin = st.tbegin ∧
-      st'.failT = st.failT ∧ st'.failC = st.failC ∧ ExitReason c st e s x := by
+      st'.failT = setAt st.failT s (x == .timeout) ∧ st'.failC = st.failC ∧ ExitReason c st e s x := by
   have hrun := hB.runPh s (by simp [hloop]) (by simp [hloop])
+  have hfT : st.failT s = false := by
+    have := (hB.diagClear s (by simp [hloop])).2
+    cases hf : st.failT s
+    · rfl
+    · simp [hf, hloop, PcB.exitOf] at this
+  have hfT' : ∀ x : Exit, setAt st.failT s (st.failT s || x == .timeout) = setAt st.failT s (x == .timeout) := by
+    intro x; rw [hfT]; simp
   cases e with
   | runBegin =>
     simp only [stepB] at h
@@ -156,7 +172,7 @@ theorem loop_exit (c : Cfg) (st st' : StB) (e : EvB) (s : Nat)
           obtain ⟨_, hph, hcreq, hdeliv, hpc, hrx, hnow⟩ := stepA_leave ha
           by_cases he : s = s'
           · subst he
-            exact ⟨.cancelled, by simp [exitLoop, setAt], hph, hcreq, hdeliv, hnow, rfl, rfl, rfl, rfl⟩
+            exact ⟨.cancelled, by simp [exitLoop, setAt], hph, hcreq, hdeliv, hnow, rfl, hfT' _, rfl, rfl⟩
           · simp only [exitLoop, setAt, if_neg he] at hleft
             exact absurd hloop hleft
       all_goals (first | (cases h; done) | (cases h; simp only [setAt] at hleft; grind))
@@ -176,7 +192,7 @@ theorem loop_exit (c : Cfg) (st st' : StB) (e : EvB) (s : Nat)
             obtain ⟨_, _, hph, hcreq, hdeliv, hpc, hrx, hnow⟩ := stepA_react_leave ha
             by_cases he : s = s'
             · subst he
-              exact ⟨.critical, by simp [exitLoop, setAt], hph, hcreq, hdeliv, hnow, rfl, rfl, rfl, rfl, D, hD, hcrit⟩
+              exact ⟨.critical, by simp [exitLoop, setAt], hph, hcreq, hdeliv, hnow, rfl, hfT' _, rfl, rfl, D, hD, hcrit⟩
             · simp only [exitLoop, setAt, if_neg he] at hleft
               exact absurd hloop hleft
         · rename_i hcrit
@@ -189,14 +205,29 @@ theorem loop_exit (c : Cfg) (st st' : StB) (e : EvB) (s : Nat)
               obtain ⟨_, _, hph, hcreq, hdeliv, hpc, hrx, hnow⟩ := stepA_react_leave ha
               by_cases he : s = s'
               · subst he
-                exact ⟨.success, by simp [exitLoop, setAt], hph, hcreq, hdeliv, hnow, rfl, rfl, rfl, rfl, D, hD,
+                exact ⟨.success, by simp [exitLoop, setAt], hph, hcreq, hdeliv, hnow, rfl, hfT' _, rfl, rfl, D, hD,
                   by simpa using hcrit, hnb⟩
               · simp only [exitLoop, setAt, if_neg he] at hleft
                 exact absurd hloop hleft
-          · split at h
-            · cases h
-            · cases h
-              exact absurd hloop hleft
+          · rename_i hnb
+            split at h
+            · rename_i hexp
+              split at h
+              · cases h
+              · rename_i a' ha
+                cases h
+                obtain ⟨_, _, hph, hcreq, hdeliv, hpc, hrx, hnow⟩ := stepA_react_leave ha
+                by_cases he : s = s'
+                · subst he
+                  obtain ⟨dl, hdl, hle⟩ := expired_some hexp
+                  exact ⟨.timeout, by simp [exitLoop, setAt], hph, hcreq, hdeliv, hnow, rfl, hfT' _, rfl, dl, hdl, hle,
+                    Or.inr ⟨rfl, D, hD, by simpa using hcrit, hnb⟩⟩
+                · simp only [exitLoop, setAt, if_neg he] at hleft
+                  exact absurd hloop hleft
+            · split at h
+              · cases h
+              · cases h
+                exact absurd hloop hleft
     · cases h
   | timeoutFire s' =>
     simp only [stepB] at h
@@ -210,12 +241,9 @@ theorem loop_exit (c : Cfg) (st st' : StB) (e : EvB) (s : Nat)
         obtain ⟨_, hph, hcreq, hdeliv, hpc, hrx, hnow⟩ := stepA_leave ha
         by_cases he : s = s'
         · subst he
-          refine ⟨.timeout, by simp [exitLoop, setAt], hph, hcreq, hdeliv, hnow, rfl, rfl, rfl, rfl, ?_⟩
-          unfold expired at hexp
-          split at hexp
-          · rename_i dl hdl
-            exact ⟨dl, hdl, by simpa using hexp, hDn⟩
-          · cases hexp
+          obtain ⟨dl, hdl, hle⟩ := expired_some hexp
+          exact ⟨.timeout, by simp [exitLoop, setAt], hph, hcreq, hdeliv, hnow, rfl, hfT' _, rfl, dl, hdl, hle,
+            Or.inl ⟨rfl, hDn⟩⟩
         · simp only [exitLoop, setAt, if_neg he] at hleft
           exact absurd hloop hleft
     · cases h
@@ -276,15 +304,19 @@ theorem exit_cancels_all (c : Cfg) (st st' : StB) (e : EvB) (s : Nat)
   simp [mem_liveChildren, hk, hl]
 
 /-- … and the reason recorded is the one that occurred: a critical job of the reacted `done` set raised; or none
-    did and the count of reported non-forever jobs reached their number; or the deadline was reached with nothing
-    to report; or the enclosing scheduler cancelled the run -/
+    did and the count of reported non-forever jobs reached their number; or the deadline was reached — with nothing
+    to report (`timeoutFire`), or noticed in a reaction to completions that neither failed critically nor
+    completed the regular jobs; or the enclosing scheduler cancelled the run -/
 theorem exit_reason (c : Cfg) (st st' : StB) (e : EvB) (s : Nat) (x : Exit)
     (hB : InvB c st) (h : stepB c st e = some st') (hloop : st.pcB s = .loop) (hx : st'.pcB s = .tidy x) :
     match x with
     | .critical => e = .react s ∧ ∃ D, st.a.rx s = some D ∧ critIn c st.a D = true
     | .success => e = .react s ∧ ∃ D, st.a.rx s = some D ∧ critIn c st.a D = false ∧
         st.nbDone s + (D.filter fun d => !c.forever d).length = nbFinite c s
-    | .timeout => e = .timeoutFire s ∧ ∃ dl, st.deadline s = some dl ∧ dl ≤ st.a.now ∧ doneSet c st.a s = []
+    | .timeout => ∃ dl, st.deadline s = some dl ∧ dl ≤ st.a.now ∧
+        ((e = .timeoutFire s ∧ doneSet c st.a s = []) ∨
+         (e = .react s ∧ ∃ D, st.a.rx s = some D ∧ critIn c st.a D = false ∧
+            st.nbDone s + (D.filter fun d => !c.forever d).length ≠ nbFinite c s))
     | .cancelled => e = .cancelArrive s := by
   obtain ⟨x', hx', _, _, _, _, _, _, _, hr⟩ := loop_exit c st st' e s hB h hloop (by simp [hx])
   rw [hx] at hx'
@@ -322,6 +354,43 @@ theorem last_regular_ends (c : Cfg) (st st' : StB) (s : Nat) (D : List Nat)
       simp [exitLoop, setAt]
   · cases h
 
+/-- C08: otherwise again, a reaction at an instant where the deadline is reached makes the run abort on timeout
+    (nothing is started), and `failed_time_out()` holds from that very step on -/
+theorem expired_reaction_aborts (c : Cfg) (st st' : StB) (s : Nat) (D : List Nat)
+    (h : stepB c st (.react s) = some st') (hrx : st.a.rx s = some D) (hcrit : critIn c st.a D = false)
+    (hcnt : st.nbDone s + (D.filter fun d => !c.forever d).length ≠ nbFinite c s)
+    (hexp : expired (st.deadline s) st.a.now = true) :
+    st'.pcB s = .tidy .timeout ∧ st'.failT s = true ∧ (∀ k, st'.a.ph k = st.a.ph k) := by
+  simp only [stepB] at h
+  split at h
+  · rename_i D' hl hD
+    rw [hrx] at hD; cases hD
+    split at h
+    · cases h
+    · simp only [hcrit, hcnt, hexp, Bool.false_eq_true, ↓reduceIte] at h
+      split at h
+      · cases h
+      · rename_i a' ha
+        cases h
+        obtain ⟨_, _, hph, _⟩ := stepA_react_leave ha
+        exact ⟨by simp [exitLoop, setAt], by simp [exitLoop, setAt], fun k => by simp [exitLoop, hph]⟩
+  · cases h
+
+/-- … and a reaction that goes on (starts successors) happens strictly before the deadline -/
+theorem react_goes_on_before_deadline (c : Cfg) (st st' : StB) (s : Nat)
+    (h : stepB c st (.react s) = some st') (hgo : st'.pcB s = .loop) :
+    expired (st.deadline s) st.a.now = false := by
+  simp only [stepB] at h
+  split at h
+  · split at h
+    · cases h
+    · (repeat' split at h)
+      all_goals first
+        | (cases h; done)
+        | (cases h; simp [exitLoop, setAt] at hgo; done)
+        | (cases h; simpa using ‹¬ expired _ _ = true›)
+  · cases h
+
 /-- C08: when its deadline is reached and its main wait has nothing to report, `timeoutFire` is enabled -/
 theorem expiry_enabled (c : Cfg) (st : StB) (s : Nat) (dl : Nat) (hA : InvA c st.a) (hB : InvB c st)
     (hwf : c.wf = true) (hloop : st.pcB s = .loop) (hdl : st.deadline s = some dl) (hnow : dl ≤ st.a.now)
@@ -343,13 +412,19 @@ theorem pcB_step (c : Cfg) (st st' : StB) (e : EvB) (s : Nat) (hB : InvB c st) (
       st'.pcB s = (if (c.children s).isEmpty then .over else .loop) ∧
       st'.failT s = st.failT s ∧ st'.failC s = st.failC s ∧ st'.tbegin s = st.a.now ∧ st'.a.now = st.a.now) ∨
     (st.pcB s = .loop ∧ (∃ x, st'.pcB s = .tidy x) ∧
-      st'.failT s = st.failT s ∧ st'.failC s = st.failC s ∧ st'.tbegin s = st.tbegin s) ∨
+      (st'.failT s = true ↔ st'.pcB s = .tidy .timeout) ∧ st'.failC s = st.failC s ∧ st'.tbegin s = st.tbegin s) ∨
     (∃ x x', (st.pcB s).exitOf = some x ∧ (st'.pcB s).exitOf = some x' ∧ (x' = x ∨ x' = .cancelled) ∧
       st'.failT s = st.failT s ∧ st'.failC s = st.failC s ∧ st'.tbegin s = st.tbegin s) ∨
     (∃ x pick r, (st.pcB s).exitOf = some x ∧ verdict c st s x pick = some r ∧
       st'.a.ph = setAt st.a.ph s (finPh r) ∧ st'.a.deliv = st.a.deliv ∧ st'.a.now = st.a.now ∧
-      st'.pcB s = .over ∧ st'.failT s = (x == .timeout) ∧ st'.failC s = (x == .critical) ∧
+      st'.pcB s = .over ∧ st'.failT s = st.failT s ∧ st'.failC s = (x == .critical) ∧
       st'.tbegin s = st.tbegin s) := by
+  have hfT : st.pcB s = .loop → st.failT s = false := by
+    intro hl
+    have := (hB.diagClear s (by simp [hl])).2
+    cases hf : st.failT s
+    · rfl
+    · simp [hf, hl, PcB.exitOf] at this
   cases e with
   | runBegin =>
     simp only [stepB] at h
@@ -408,7 +483,8 @@ theorem pcB_step (c : Cfg) (st st' : StB) (e : EvB) (s : Nat) (hB : InvB c st) (
       split at h
       · split at h
         · split at h <;> cases h
-          exact Or.inr (Or.inr (Or.inl ⟨‹_›, ⟨.cancelled, by simp [exitLoop, setAt]⟩, rfl, rfl, rfl⟩))
+          exact Or.inr (Or.inr (Or.inl ⟨‹_›, ⟨.cancelled, by simp [exitLoop, setAt]⟩,
+            by simp [exitLoop, setAt, hfT ‹_›], rfl, rfl⟩))
         all_goals first
           | (cases h; done)
           | (cases h
@@ -430,12 +506,18 @@ theorem pcB_step (c : Cfg) (st st' : StB) (e : EvB) (s : Nat) (hB : InvB c st) (
         · cases h
         · split at h
           · split at h <;> cases h
-            exact Or.inr (Or.inr (Or.inl ⟨hl, ⟨.critical, by simp [exitLoop, setAt]⟩, rfl, rfl, rfl⟩))
+            exact Or.inr (Or.inr (Or.inl ⟨hl, ⟨.critical, by simp [exitLoop, setAt]⟩,
+              by simp [exitLoop, setAt, hfT hl], rfl, rfl⟩))
           · split at h
             · split at h <;> cases h
-              exact Or.inr (Or.inr (Or.inl ⟨hl, ⟨.success, by simp [exitLoop, setAt]⟩, rfl, rfl, rfl⟩))
-            · split at h <;> cases h
-              exact Or.inl ⟨rfl, rfl, rfl, rfl⟩
+              exact Or.inr (Or.inr (Or.inl ⟨hl, ⟨.success, by simp [exitLoop, setAt]⟩,
+                by simp [exitLoop, setAt, hfT hl], rfl, rfl⟩))
+            · split at h
+              · split at h <;> cases h
+                exact Or.inr (Or.inr (Or.inl ⟨hl, ⟨.timeout, by simp [exitLoop, setAt]⟩,
+                  by simp [exitLoop, setAt], rfl, rfl⟩))
+              · split at h <;> cases h
+                exact Or.inl ⟨rfl, rfl, rfl, rfl⟩
       · cases h
     · (repeat' split at h)
       all_goals first
@@ -448,7 +530,8 @@ theorem pcB_step (c : Cfg) (st st' : StB) (e : EvB) (s : Nat) (hB : InvB c st) (
       (repeat' split at h)
       all_goals first
         | (cases h; done)
-        | (cases h; exact Or.inr (Or.inr (Or.inl ⟨(‹_ ∧ _›).1, ⟨.timeout, by simp [exitLoop, setAt]⟩, rfl, rfl, rfl⟩)))
+        | (cases h; exact Or.inr (Or.inr (Or.inl ⟨(‹_ ∧ _›).1, ⟨.timeout, by simp [exitLoop, setAt]⟩,
+            by simp [exitLoop, setAt], rfl, rfl⟩)))
     · (repeat' split at h)
       all_goals first
         | (cases h; done)
@@ -464,7 +547,7 @@ theorem pcB_step (c : Cfg) (st st' : StB) (e : EvB) (s : Nat) (hB : InvB c st) (
           · obtain ⟨r, hv, _, hph, _, hdl, _, _, hnow, hp, hfT, hfC, htb⟩ := finishRun_spec h
             refine Or.inr (Or.inr (Or.inr (Or.inr ⟨x, pick, r, by simp [hx, PcB.exitOf], hv, hph, hdl, hnow, ?_, ?_, ?_, ?_⟩)))
             · simp [hp, setAt]
-            · simp [hfT, setAt]
+            · simp [hfT]
             · simp [hfC, setAt]
             · simp [htb]
           · cases h
@@ -489,7 +572,7 @@ theorem pcB_step (c : Cfg) (st st' : StB) (e : EvB) (s : Nat) (hB : InvB c st) (
             obtain ⟨r, hv, _, hph, _, hdl, _, _, hnow, hp, hfT, hfC, htb⟩ := finishRun_spec h
             refine Or.inr (Or.inr (Or.inr (Or.inr ⟨x, pick, r, by simp [hx, PcB.exitOf], hv, hph, hdl, hnow, ?_, ?_, ?_, ?_⟩)))
             · simp [hp, setAt]
-            · simp [hfT, setAt]
+            · simp [hfT]
             · simp [hfC, setAt]
             · simp [htb]
           · cases h
@@ -527,7 +610,7 @@ theorem pcB_step (c : Cfg) (st st' : StB) (e : EvB) (s : Nat) (hB : InvB c st) (
             obtain ⟨r, hv, _, hph, _, hdl, _, _, hnow, hp, hfT, hfC, htb⟩ := finishRun_spec h
             refine Or.inr (Or.inr (Or.inr (Or.inr ⟨x, pick, r, by simp [hx, PcB.exitOf], hv, hph, hdl, hnow, ?_, ?_, ?_, ?_⟩)))
             · simp [hp, setAt]
-            · simp [hfT, setAt]
+            · simp [hfT]
             · simp [hfC, setAt]
             · simp [htb]
           · cases h
@@ -651,12 +734,15 @@ theorem diag_stable (c : Cfg) (st st' : StB) (e : EvB) (s : Nat) (hA : InvA c st
 
 /-- C04: the step in which a run with jobs ends reports exactly the reason for which it left its loop:
     value / exception (the very exception object of one of its critical jobs, or its own `TimeoutError`),
-    `failed_time_out()`, `failed_critical()` -/
+    `failed_critical()`; `failed_time_out()` was recorded when the loop was left and is not touched here: it holds
+    after exit `timeout`, does not after `success` / `critical`, and after `cancelled` it tells whether the run
+    had timed out before the cancellation reached its clean-up -/
 theorem verdict_of_exit (c : Cfg) (st st' : StB) (e : EvB) (s : Nat)
     (hB : InvB c st) (h : stepB c st e = some st')
     (hnot : st.pcB s ≠ .over) (hover : st'.pcB s = .over) (hne : c.children s ≠ []) :
     ∃ x, (st.pcB s).exitOf = some x ∧
-      st'.failT s = (x == .timeout) ∧ st'.failC s = (x == .critical) ∧
+      st'.failT s = st.failT s ∧ (x = .timeout → st'.failT s = true) ∧
+      (st'.failT s = true → x = .timeout ∨ x = .cancelled) ∧ st'.failC s = (x == .critical) ∧
       (match x with
        | .success => st'.a.ph s = .done (.retBool true)
        | .cancelled => st'.a.ph s = .cancelled
@@ -672,7 +758,15 @@ theorem verdict_of_exit (c : Cfg) (st st' : StB) (e : EvB) (s : Nat)
   · rw [h1, if_neg (by simpa using hne)] at hover; cases hover
   · rw [h1] at hover; cases hover
   · simp [hover, PcB.exitOf] at h1
-  · refine ⟨x, hx, hfT, hfC, ?_⟩
+  · refine ⟨x, hx, hfT, ?_, ?_, hfC, ?_⟩
+    · intro hxt
+      subst hxt
+      rw [hfT]; exact hB.failTSet s hx
+    · intro hf
+      rw [hfT] at hf
+      have := (hB.diagClear s hnot).2 hf
+      rw [hx] at this
+      simpa using this
     have hs : st'.a.ph s = finPh r := by rw [hph]; simp [setAt]
     rw [hs]
     cases x <;> simp only [verdict] at hv ⊢
@@ -881,6 +975,13 @@ structure ExitInv (c : Cfg) (st : StB) : Prop where
       (∀ k ∈ c.children s, c.critical k = true → st.a.deliv k = true → ∀ ex, st.a.ph k ≠ .done (.exc ex))
   /-- C04 / C08: `failed_time_out()` holds only if the timeout elapsed, `failed_critical()` only if a critical job raised -/
   failTMeans : ∀ s, st.failT s = true → ∃ T, c.timeout s = some T ∧ st.tbegin s + T ≤ st.a.now
+  /-- … and in every state (not only once the run is over) it tells that the run left its main loop on expiry:
+      it does not hold before the run has left its loop; while the run cleans up it holds iff the exit reason is
+      `timeout`, or `cancelled` after a `timeout` (`InvB.diagClear`, `InvB.failTSet`; history form:
+      `failT_iff_timesOut`); once the run is over, the run ended with the verdict of a timeout, or cancelled -/
+  failTOver : ∀ s, st.pcB s = .over → st.failT s = true →
+      st.a.ph s = .cancelled ∨
+      st.a.ph s = (if nestable c s && c.critical s then .done (.exc (.tmo s)) else .done (.retBool false))
   failCMeans : ∀ s, st.failC s = true → ∃ k ∈ c.children s, c.critical k = true ∧ ∃ ex, st.a.ph k = .done (.exc ex)
   /-- C10: where an exception object comes from: an atomic job raises its own; a scheduler re-raises the object
       of one of its critical jobs, or its own `TimeoutError` -/
@@ -983,7 +1084,7 @@ theorem exitInv_step (c : Cfg) (hwf : c.wf = true) (st st' : StB) (e : EvB)
     · exact tmo_transfer c st st' e h s h2 (hE.timeoutMeans s h1)
     · obtain ⟨x, hx', _, _, _, hnow, htb, _, _, hr⟩ := loop_exit c st st' e s hB h h1 (by simp [h2])
       rw [h2] at hx'; cases hx'
-      obtain ⟨_, dl, hdl, hle, _⟩ := hr
+      obtain ⟨dl, hdl, hle, _⟩ := hr
       have := hB.deadlineEq s h1
       rw [hdl] at this
       cases hT : c.timeout s with
@@ -991,6 +1092,17 @@ theorem exitInv_step (c : Cfg) (hwf : c.wf = true) (st st' : StB) (e : EvB)
       | some T =>
         simp [hT] at this
         exact ⟨T, hT, by rw [htb, hnow]; omega⟩
+  -- `failed_time_out()` is clear on a run that is about to begin
+  have hbeg : ∀ s, (st.a.ph s = .queued ∨ st.pcB s = .notBegun) → ¬ st.failT s = true := by
+    intro s q0 hf
+    by_cases ho : st.pcB s = .over
+    · have hr := hB.pcRange s (by simp [ho])
+      have := hA.notBegun s hr.2
+      have := hB.pcNotBegun s
+      grind
+    · have h1 := (hB.diagClear s ho).2 hf
+      have h2 := hB.runPh s
+      cases hp : st.pcB s <;> simp_all [PcB.exitOf]
   exact
     { successMeans := hsucc
       criticalMeans := hcrit
@@ -1014,21 +1126,40 @@ theorem exitInv_step (c : Cfg) (hwf : c.wf = true) (st st' : StB) (e : EvB)
         rcases pcB_step c st st' e s hB h with ⟨_, q1, _, q2⟩ | ⟨q0, _, q1, _⟩ | ⟨_, _, q1, _, q2⟩ |
             ⟨y, y', _, _, _, q1, _, q2⟩ | ⟨y, pick, r, hy, _, _, _, _, _, q1, _, q2⟩
         · rw [q1] at hf; exact tmo_transfer c st st' e h s q2 (hE.failTMeans s hf)
-        · exfalso
-          rw [q1] at hf
-          by_cases ho : st.pcB s = .over
-          · have hr := hB.pcRange s (by simp [ho])
-            have := hA.notBegun s hr.2
-            have := hB.pcNotBegun s
-            grind
-          · have := (hB.diagClear s ho).1
-            simp [hf] at this
+        · exact absurd (q1 ▸ hf) (hbeg s q0)
+        · exact htmo s (by rw [q1.1 hf]; rfl)
         · rw [q1] at hf; exact tmo_transfer c st st' e h s q2 (hE.failTMeans s hf)
         · rw [q1] at hf; exact tmo_transfer c st st' e h s q2 (hE.failTMeans s hf)
+      failTOver := by
+        intro s ho hf
+        rcases pcB_step c st st' e s hB h with ⟨q0, q1, _⟩ | ⟨q0, _, q1, _⟩ | ⟨_, ⟨y, q0⟩, _⟩ |
+            ⟨y, y', _, q0, _⟩ | ⟨y, pick, r, hy, hv, hph, _, _, _, q1, _⟩
+        · rw [q0] at ho; rw [q1] at hf
+          have := hE.failTOver s ho hf
+          have hd : (st.a.ph s).isDone = true ∨ st.a.ph s = .cancelled := by
+            rcases this with h1 | h1
+            · exact Or.inr h1
+            · left; rw [h1]; split <;> rfl
+          rw [f1 s hd]; exact this
+        · exact absurd (q1 ▸ hf) (hbeg s q0)
+        · rw [q0] at ho; cases ho
+        · rw [ho] at q0; simp [PcB.exitOf] at q0
         · rw [q1] at hf
-          have : y = .timeout := by simpa using hf
-          subst this
-          exact tmo_transfer c st st' e h s q2 (hE.timeoutMeans s hy)
+          have hno : st.pcB s ≠ .over := by intro ho'; rw [ho'] at hy; simp [PcB.exitOf] at hy
+          have := (hB.diagClear s hno).2 hf
+          rw [hy] at this
+          have hs : st'.a.ph s = finPh r := by rw [hph]; simp [setAt]
+          rw [hs]
+          rcases this with h1 | h1
+          · have : y = .timeout := by simpa using h1
+            subst this
+            simp only [verdict] at hv
+            right
+            split at hv <;> cases hv <;> simp_all [finPh]
+          · have : y = .cancelled := by simpa using h1
+            subst this
+            simp only [verdict] at hv
+            cases hv; left; rfl
       failCMeans := by
         intro s hf
         rcases pcB_step c st st' e s hB h with ⟨_, _, q1, _⟩ | ⟨_, _, _, q1, _⟩ | ⟨_, _, _, q1, _⟩ |
@@ -1084,6 +1215,121 @@ theorem exitInv_accept (c : Cfg) (hwf : c.wf = true) (evs : List EvB) (st0 st : 
 theorem exitInv_reach (c : Cfg) (hwf : c.wf = true) (evs : List EvB) (st : StB)
     (h : acceptB c StB.init evs = some st) : ExitInv c st :=
   exitInv_accept c hwf evs StB.init st (invA_init c) (invB_init c) (exitInv_init c) h
+
+/-! ### `failed_time_out()` and the history -/
+
+/-- one step: `failed_time_out()` of `s` holds afterwards iff it held before, or the step takes the run of `s`
+    out of its main loop on expiry -/
+theorem failT_step (c : Cfg) (hwf : c.wf = true) (st st' : StB) (e : EvB) (s : Nat)
+    (hA : InvA c st.a) (hB : InvB c st) (h : stepB c st e = some st') :
+    st'.failT s = true ↔ st.failT s = true ∨ st'.pcB s = .tidy .timeout := by
+  have hB' := invB_step c hwf st st' e hA hB h
+  constructor
+  · intro hf
+    rcases pcB_step c st st' e s hB h with ⟨_, q1, _⟩ | ⟨_, _, q1, _⟩ | ⟨_, _, q1, _⟩ |
+        ⟨y, y', _, _, _, q1, _⟩ | ⟨y, pick, r, _, _, _, _, _, _, q1, _⟩
+    · exact Or.inl (q1 ▸ hf)
+    · exact Or.inl (q1 ▸ hf)
+    · exact Or.inr (q1.1 hf)
+    · exact Or.inl (q1 ▸ hf)
+    · exact Or.inl (q1 ▸ hf)
+  · rintro (hf | hx)
+    · rcases pcB_step c st st' e s hB h with ⟨_, q1, _⟩ | ⟨_, _, q1, _⟩ | ⟨q0, _, q1, _⟩ |
+          ⟨y, y', _, _, _, q1, _⟩ | ⟨y, pick, r, _, _, _, _, _, _, q1, _⟩
+      · rw [q1]; exact hf
+      · rw [q1]; exact hf
+      · have := (hB.diagClear s (by simp [q0])).2 hf
+        simp [q0, PcB.exitOf] at this
+      · rw [q1]; exact hf
+      · rw [q1]; exact hf
+    · exact hB'.failTSet s (by rw [hx]; rfl)
+
+theorem failT_iff_timesOutFrom (c : Cfg) (hwf : c.wf = true) (s : Nat) (evs : List EvB) (st0 st : StB)
+    (hA : InvA c st0.a) (hB : InvB c st0) (h : acceptB c st0 evs = some st) :
+    st.failT s = true ↔ st0.failT s = true ∨ timesOutFrom c s st0 evs := by
+  induction evs generalizing st0 with
+  | nil =>
+    simp only [acceptB] at h; cases h
+    rw [timesOutFrom_nil]
+    constructor
+    · exact Or.inl
+    · rintro (hf | hx)
+      · exact hf
+      · exact hB.failTSet s (by rw [hx]; rfl)
+  | cons e es ih =>
+    simp only [acceptB] at h
+    split at h
+    · rename_i st1 hs
+      have hB1 := invB_step c hwf st0 st1 e hA hB hs
+      have hA1 : InvA c st1.a := by
+        rcases stepB_refines c st0 st1 e hs with heq | ⟨ea, hea⟩
+        · rw [heq]; exact hA
+        · exact invA_step c hwf st0.a st1.a ea hA hea
+      rw [ih st1 hA1 hB1 h, failT_step c hwf st0 st1 e s hA hB hs, timesOutFrom_cons c s st0 st1 e es hs]
+      constructor
+      · rintro ((hf | hx) | ht)
+        · exact Or.inl hf
+        · exact Or.inr (Or.inr ⟨[], st1, List.nil_prefix, rfl, hx⟩)
+        · exact Or.inr (Or.inr ht)
+      · rintro (hf | hx | ht)
+        · exact Or.inl (Or.inl hf)
+        · exact Or.inl (Or.inl (hB.failTSet s (by rw [hx]; rfl)))
+        · exact Or.inr ht
+    · cases h
+
+/-- C04 / C08: in every reachable state — while the run cleans up as well as once it is over, and whatever the
+    clean-up ends with (a cancellation by the enclosing scheduler included) — `failed_time_out()` of `s` holds iff the
+    run of `s` left its main loop on expiry -/
+theorem failT_iff_timesOut (c : Cfg) (hwf : c.wf = true) (evs : List EvB) (st : StB)
+    (h : acceptB c StB.init evs = some st) (s : Nat) :
+    st.failT s = true ↔ timesOut c s evs := by
+  rw [failT_iff_timesOutFrom c hwf s evs StB.init st (invA_init c) (invB_init c) h]
+  simp [timesOut, StB.init]
+
+/-! ### non-vacuity: the expiry noticed in a reaction
+
+  Scheduler `0` with timeout 3, job `1` (3 time units), job `2` requiring job `1`: the completion of `1` is reported
+  in the very instant of the deadline; the reaction takes the timeout exit, `failed_time_out()` holds at once, and
+  job `2` is never queued.  A second configuration nests that scheduler (`1`, jobs `2` and `3`) in a scheduler with
+  a critical job `4` that raises meanwhile: the nested run times out, is cancelled during its clean-up, ends
+  cancelled — and still reports `failed_time_out()`. -/
+
+def tmoCfg : Cfg :=
+  { n := 3, parent := fun _ => 0, isSched := fun j => j = 0, req := fun j => if j = 2 then [1] else [],
+    critical := fun _ => false, forever := fun _ => false, window := fun _ => 0,
+    timeout := fun j => if j = 0 then some 3 else none, sdTimeout := fun _ => none, topPure := true }
+
+def tmoEvs : List EvB := [.runBegin, .grant 1, .tick 3, .bodyEnd 1 true, .waitReturn 0, .react 0]
+
+example : tmoCfg.wf = true ∧
+    (acceptB tmoCfg StB.init tmoEvs).map (fun st => (st.pcB 0, st.failT 0, st.a.ph 2, st.a.now)) =
+      some (.tidy .timeout, true, .idle, 3) ∧
+    (acceptB tmoCfg StB.init (tmoEvs ++ [.tidyReturn 0 0, .hEnd 1, .hEnd 2, .sdWaitReturn 0 0])).map
+      (fun st => (st.pcB 0, st.failT 0, st.failC 0, st.a.ph 0, st.a.ph 2)) =
+      some (.over, true, false, .done (.retBool false), .idle) := by
+  decide
+
+example : timesOut tmoCfg 0 tmoEvs :=
+  ⟨tmoEvs, _, List.prefix_refl _, rfl, by decide⟩
+
+def tmoNestCfg : Cfg :=
+  { n := 5, parent := fun j => if j = 2 ∨ j = 3 then 1 else 0, isSched := fun j => j = 0 ∨ j = 1,
+    req := fun j => if j = 3 then [2] else [],
+    critical := fun j => j = 4, forever := fun _ => false, window := fun _ => 0,
+    timeout := fun j => if j = 1 then some 3 else none, sdTimeout := fun _ => none, topPure := true }
+
+def tmoNestEvs : List EvB :=
+  [.runBegin, .grant 1, .grant 4, .grant 2, .tick 3, .bodyEnd 2 true, .bodyEnd 4 false, .waitReturn 1, .react 1,
+   .waitReturn 0, .react 0, .cancelArrive 1, .tidyReturn 1 0, .hEnd 2, .hEnd 3, .sdWaitReturn 1 0]
+
+example : tmoNestCfg.wf = true ∧
+    (acceptB tmoNestCfg StB.init (tmoNestEvs.take 9)).map (fun st => (st.pcB 1, st.failT 1)) =
+      some (.tidy .timeout, true) ∧
+    (acceptB tmoNestCfg StB.init (tmoNestEvs.take 12)).map (fun st => (st.pcB 1, st.failT 1)) =
+      some (.tidy .cancelled, true) ∧
+    (acceptB tmoNestCfg StB.init tmoNestEvs).map (fun st => (st.pcB 1, st.failT 1, st.failC 1, st.a.ph 1, st.a.ph 3)) =
+      some (.over, true, false, .cancelled, .idle) := by
+  decide
 
 /-- C08: T is measured from the beginning of the scheduler's own run, and the run does not stay in its main loop
     beyond `begin + T` -/
